@@ -856,12 +856,57 @@ def fact_builder_sibling(rep, ex: Explorer):
                         okk = all(isinstance(v, LinV) and v.lin == F.lin_add(F.lin_term(carried), F.lin_const(1)) for g, v in cs)
         rep.check(okk, "FACT.shape", site, "fact keys", "keys start_index+1, +2, ...", extracted=str(okk), required="running key from start_index+1", function=site)
     rep.floor("build_fact_conditionals paths", n, 1)
-    # augment: start index = max(existing keys, default 0)
-    fi = ex.prog.function("inference.consistency_diagnostics.augment_belief_base_with_facts")
-    src = ast.unparse(fi.node)
-    ok = any(isinstance(nd, ast.Call) and isinstance(nd.func, ast.Name) and nd.func.id == "max" and any(k.arg == "default" and isinstance(k.value, ast.Constant) and k.value.value == 0 for k in nd.keywords)
-             and "keys" in ast.unparse(nd) for nd in ast.walk(fi.node))
-    rep.check(ok, "FACT.shape", fn_label(ex.prog, fi.qualname), "start index", "facts are keyed above the highest key of the base", extracted="max(keys, default=0)" if ok else "other", required="max(existing keys, default=0)", function=fn_label(ex.prog, fi.qualname))
+    # augment: the builder is called with start index = highest key of the base (0 for an empty base); the result holds
+    # the base's conditionals and the fact conditionals; the base handed in is left as it was
+    qual2 = "inference.consistency_diagnostics.augment_belief_base_with_facts"
+    site2 = fn_label(ex.prog, qual2)
+    held = {}
+
+    def bfc(I, fi, args, kwargs, node):
+        I.log("facts.build", node, args=tuple(args), kwargs=dict(kwargs))
+        b = I.fresh_var("f")
+        return I.alloc(HDict(each=[("each", b, FACTS, PTRUE, Sym(("factkey", b)), Sym(("factcond", b)))]))
+
+    def setup2(I):
+        bb = make_belief_base(I)
+        held["bb"] = bb
+        return [bb, ElemV(("facts",), "coll", "factentry")], {}
+
+    summ2 = dict(wrappers.SUMMARIES)
+    summ2["inference.consistency_diagnostics.build_fact_conditionals"] = bfc
+    paths = ex.run(qual2, setup2, summaries=summ2, key="augment")
+    m = 0
+    for p in paths:
+        if p.outcome[0] != "return" or decided(p, ("empty", ("facts",))) is not False:
+            continue
+        m += 1
+        calls = [ev for ev, Q in iter_events(p.events) if ev.kind == "facts.build"]
+        if len(calls) != 1:
+            rep.violation("FACT.shape", site2, "builder", "the fact conditionals come from one call of the shared builder", extracted=f"{len(calls)} calls", required="1", function=site2)
+            continue
+        fparams = [a.arg for a in ex.prog.function(qual).node.args.args]
+        bound = {fparams[i]: v for i, v in enumerate(calls[0].args) if i < len(fparams)}
+        bound.update(calls[0].kwargs)
+        st = bound.get("start_index")
+        ok = False
+        if isinstance(st, LinV) and len(st.lin[0]) == 1 and st.lin[1] == 0 and st.lin[0][0][1] == 1 and isinstance(st.lin[0][0][0], tuple) and st.lin[0][0][0][0] == "max":
+            t = st.lin[0][0][0]
+            dflt = [x for x in t if isinstance(x, tuple) and x and x[0] == "default"]
+            ok = "('keys', 'D')" in repr(t) and "'key')" in repr(t) and (not dflt or dflt[0][1] == ("c", 0))
+        elif st is not None and not isinstance(st, (Const, LinV)):
+            raise AnalysisError(f"{site2}: start index in a form the analysis does not read: {st!r}")
+        rep.check(ok, "FACT.shape", f"{site2}:{calls[0].node.lineno}", "start index", "facts are keyed above the highest key of the base", extracted=repr(st)[:120], required="max(keys of the base, default 0)", function=site2)
+        rv = p.outcome[1]
+        o = p.state.heap.get(rv.oid) if isinstance(rv, Ref) else None
+        c = o.attrs.get("conditionals") if isinstance(o, HObj) else None
+        d = p.state.heap.get(c.oid) if isinstance(c, Ref) else None
+        okr = isinstance(d, HDict) and not d.entries and sorted(e[2] for e in d.each) == sorted([KEYS_D, FACTS])
+        rep.check(okr, "FACT.shape", site2, "augmented base", "the augmented base holds the conditionals of the base and the fact conditionals", extracted=f"groups over {[F.show_desc(e[2]) for e in d.each]}" if isinstance(d, HDict) else repr(rv), required="base ∪ facts", function=site2)
+        bbo = p.state.heap.get(held["bb"].oid)
+        d0 = p.state.heap.get(bbo.attrs["conditionals"].oid)
+        rep.check(isinstance(d0, HDict) and not d0.entries and len(d0.each) == 1 and d0.each[0][2] == KEYS_D, "FACT.shape", site2, "caller's base untouched", "augmenting builds a new base; the one handed in keeps its own conditionals only",
+                  extracted=f"{len(d0.each)} group(s)", required="1", function=site2)
+    rep.floor("augment_belief_base_with_facts paths with facts", m, 1)
 
 
 # ----------------------------------------------------------------------------------------------
@@ -1041,35 +1086,91 @@ def save_restore(rep, ex: Explorer):
 
 
 def impacts_keys(rep, ex: Explorer):
-    """IMPACTS.keys: keys written by export_impacts = keys required and read by import_impacts; the size check
-    precedes the assignment of the imported vector."""
+    """IMPACTS.keys, decided by evaluating the writer and then the reader on what the writer produced: (1) the mapping
+    export_impacts dumps, handed to import_impacts of the same object as the file's content, is accepted on every path and
+    its impact vector becomes the object's; (2) a file whose size entry differs from the number of conditionals is refused
+    before it replaces the current impacts."""
     prog = ex.prog
-    e_fi = prog.function(f"{CR}.export_impacts")
-    i_fi = prog.function(f"{CR}.import_impacts")
-    site_e, site_i = fn_label(prog, e_fi.qualname), fn_label(prog, i_fi.qualname)
-    written = set()
-    for n in ast.walk(e_fi.node):
-        if isinstance(n, ast.Dict) and all(isinstance(k, ast.Constant) and isinstance(k.value, str) for k in n.keys) and n.keys:
-            written |= {k.value for k in n.keys}
-    required, read = set(), set()
-    for n in ast.walk(i_fi.node):
-        if isinstance(n, ast.Assign) and isinstance(n.value, ast.List) and all(isinstance(e, ast.Constant) and isinstance(e.value, str) for e in n.value.elts) and n.value.elts:
-            required |= {e.value for e in n.value.elts}
-        if isinstance(n, ast.Subscript) and isinstance(n.value, ast.Name) and n.value.id == "impact_data" and isinstance(n.slice, ast.Constant):
-            read.add(n.slice.value)
-    rep.check(bool(written) and (required | read) <= written, "IMPACTS.keys", site_i, "keys", "every key the importer requires or reads is written by the exporter",
-              extracted=f"written {sorted(written)}, required {sorted(required)}, read {sorted(read)}", required="required ∪ read ⊆ written", function=site_i)
-    rep.check(read <= required, "IMPACTS.keys", site_i, "read keys are validated", "every key that is read was checked to be present", extracted=f"read {sorted(read)}, required {sorted(required)}", required="read ⊆ required", function=site_i)
-    # order: size check before assignment of the vector
-    assign_line = None
-    check_line = None
-    for n in ast.walk(i_fi.node):
-        if isinstance(n, ast.Assign) and any(isinstance(t, ast.Attribute) and t.attr == "_impacts" for t in n.targets):
-            assign_line = n.lineno
-        if isinstance(n, ast.If) and "conditionals_count" in ast.unparse(n.test) and _always_raises(n.body):
-            check_line = n.lineno
-    rep.check(check_line is not None and assign_line is not None and check_line < assign_line, "IMPACTS.keys", site_i, "size check first", "a vector of the wrong size is rejected before it replaces the current impacts",
-              extracted=f"check at {check_line}, assignment at {assign_line}", required="check before assignment", function=site_i)
+    exp, imp = f"{CR}.export_impacts", f"{CR}.import_impacts"
+    site_e, site_i = fn_label(prog, exp), fn_label(prog, imp)
+
+    def obj(I, impacts):
+        bb = make_belief_base(I)
+        conds = I.deref(bb).attrs["conditionals"]
+        return _obj(I, CR, lambda I: {"conditionals": conds, "_impacts": impacts, "ranking_system": Const("random_min_c_rep")})
+
+    written = None
+    for fmt, name in (("json", "m.json"), ("pickle", "m.pkl")):
+        def setup_s(I, fmt=fmt, name=name):
+            return [obj(I, Sym("impacts")), Const(name)], {"fmt": Const(fmt)}
+
+        for p in ex.run(exp, setup_s, summaries=_summ(), key=f"impkeys-exp-{fmt}"):
+            for ev, Q in iter_events(p.events):
+                if ev.kind == "persist.dump":
+                    d = p.state.heap.get(ev.obj.oid) if isinstance(ev.obj, Ref) else None
+                    if not isinstance(d, HDict) or d.each or d.sym:
+                        raise AnalysisError(f"{site_e}: the exported object is not a mapping with literal keys: {ev.obj!r}")
+                    cur = {k: desc(v) for k, v in d.entries.items()}
+                    if written is not None and {k: desc(v) for k, v in written.items()} != cur:
+                        rep.violation("IMPACTS.keys", site_e, "one layout", "both formats export the same mapping", extracted=f"{sorted(cur)} vs {sorted(written)}", required="equal", function=site_e)
+                    written = dict(d.entries)
+    if not written:
+        raise AnalysisError(f"{site_e}: no dump observed")
+    rep.check("impacts" in written and written["impacts"] == Sym("impacts"), "IMPACTS.keys", site_e, "vector exported", "the exported mapping carries the object's impact vector", extracted=f"keys {sorted(written)}; impacts = {written.get('impacts')!r}",
+              required="the impacts of the object", function=site_e)
+
+    def reader_paths(content, key):
+        held = {}
+
+        def load(interp, args, kwargs, node):
+            interp.log("persist.load", node, how="json.loads", src=args[0] if args else None, lid=0)
+            interp.log("persist.loaded", node, how="json.loads", lid=0)
+            return interp.alloc(HDict(entries=dict(content)))
+
+        def setup_l(I):
+            s_ = obj(I, Sym("old-impacts"))
+            held["s"] = s_
+            return [s_, Const("m.json")], {}
+
+        paths = ex.run(imp, setup_l, summaries=_summ(), key=key, models={"json.loads": load, "pickle.loads": load, "json.load": load, "pickle.load": load})
+        out = []
+        for p in paths:
+            exists = [v for k, v in p.decisions if k[0] == "exists-file"]
+            if exists and exists[0] is False:
+                continue
+            o = p.state.heap.get(held["s"].oid)
+            out.append((p, o.attrs.get("_impacts") if isinstance(o, HObj) else None))
+        return out
+
+    # (1) round trip on the same object
+    n = 0
+    for p, now in reader_paths(written, "impkeys-roundtrip"):
+        n += 1
+        ok = p.outcome[0] == "return" and now == Sym("impacts")
+        rep.check(ok, "IMPACTS.keys", site_i, "round trip", "what export_impacts wrote is accepted by import_impacts of the same object, and the vector read is the one written",
+                  extracted=f"{p.outcome[0]}{' ' + p.outcome[1].cls + ' ' + str(getattr(p.outcome[1], 'origin', '') or '')[:60] if p.outcome[0] == 'raise' else ''}; impacts now {now!r}", required="return; impacts = the exported vector", function=site_i)
+    rep.floor("import paths on an exported file", n, 1)
+    # (2) a file of another base: the size entry is compared before anything is replaced
+    other = {k: Sym(("file", k)) for k in written}
+    compared = False
+    m = 0
+    for p, now in reader_paths(other, "impkeys-mismatch"):
+        size = [(k, v) for k, v in p.decisions if k[0] == "cmp" and F.mentions(k, {("file", "conditionals_count")})]
+        if not size:
+            continue
+        compared = True
+        (k, v), = size[:1]
+        equal = v if k[1] == "==" else (not v if k[1] == "!=" else None)
+        if equal is None or not F.mentions(k, {("len", ("keys", "D"))}):
+            raise AnalysisError(f"{site_i}: size test in a form the analysis does not read: {show_pred(k)}")
+        m += 1
+        if equal:
+            rep.check(p.outcome[0] == "return" and now == Sym(("file", "impacts")), "IMPACTS.keys", site_i, "matching size accepted", "a vector of the right size is imported", extracted=f"{p.outcome[0]}; impacts now {now!r}", required="the file's vector", function=site_i)
+        else:
+            rep.check(p.outcome[0] == "raise" and now == Sym("old-impacts"), "IMPACTS.keys", site_i, "size check first", "a vector of the wrong size is rejected before it replaces the current impacts",
+                      extracted=f"{p.outcome[0]}; impacts now {now!r}", required="raise; impacts unchanged", function=site_i)
+    if not compared:
+        rep.violation("IMPACTS.keys", site_i, "size check first", "the size entry of the file is compared with the number of conditionals", extracted="never compared", required="conditionals_count == len(conditionals)", function=site_i)
     rep.floor("impact keys", len(written), 3)
 
 
